@@ -73,7 +73,11 @@ fn serialize_range_mappings(sm: &SourceMap) -> Option<String> {
 
             let num = idx - idx_of_first_in_line;
 
-            rmi_data.resize(rmi_data.len() + 2, 0);
+            // make room for bit `num` (a line can hold more than 16 tokens)
+            let needed = num / 8 + 1;
+            if rmi_data.len() < needed {
+                rmi_data.resize(needed, 0);
+            }
 
             let rmi_bits = rmi_data.view_bits_mut::<Lsb0>();
             rmi_bits.set(num, true);
